@@ -57,6 +57,10 @@ impl<R: Read + Seek> ReadBox<&mut R> for MvexBox {
                     "mvex box contains a box with a larger size than it",
                 ));
             }
+            if s == 0 {
+                // A zero-size child never advances the stream: stop instead of looping forever.
+                break;
+            }
 
             match name {
                 BoxType::MehdBox => {
